@@ -10,7 +10,7 @@ package validation
 // asset directly from the TxData and compares.
 
 //verif:property C01
-//verif:bound shapes: <= 2 inputs, each one of {spend, issuance, veto, coinbase}, x <= 2 outputs, each one of {original, vote, retirement}; quick: a covering set of shapes, thorough: all shapes with <= 2 x <= 2
+//verif:bound shapes (kind of every input x kind of every output), <= 2 inputs of {spend, issuance, veto, coinbase} x <= 2 outputs of {original, vote, retirement}; quick: spend>orig, coinbase>orig, coinbase+spend>orig, veto>vote, spend>orig+retire, spend>vote+orig, issuance+spend>orig, spend+spend>orig; thorough adds spend+spend>orig+orig, issuance+spend>orig+retire, veto+spend>vote+orig, coinbase+spend>orig+orig, issuance+issuance>orig+orig, spend+veto>retire+vote
 //verif:bound every amount an arbitrary uint64; every asset id of a spend/veto input and of an output is ff..ff (BTM) in its upper 24 bytes and arbitrary in its first 8 bytes (BTM itself included; equalities between ids are solver-chosen); issuance asset ids are the real hash of the issuance data; source ids are distinct constants, source positions arbitrary; SerializedSize, TimeRange, tx version, block height arbitrary
 //verif:assume control and issuance programs are the one-byte program OP_TRUE (0x51) with no arguments and no state, retirement program OP_FAIL (0x6a); vote public key 64 bytes
 //verif:assume SHA3-256 is an uninterpreted collision-free function for the solver (real in validation and replay)
